@@ -330,6 +330,7 @@ struct TModel {
           }
           e.died = true; e.count = 1;
           retire_pred(e);
+          leave(e);
         }
         rq.clear();
         return r;
